@@ -43,6 +43,7 @@ type Frame struct {
 	isaWrites []isaWrite
 	view      *regView
 	lanes     *laneSpec
+	loopEntry map[int]*State // state on entry to each loop cut at an invariant (spec builtin atloop)
 	onCall    func(f *Frame, st *State, call ssa.CallInstruction, args []*Val) // hook (assert-at, C06 ...)
 }
 
